@@ -78,8 +78,16 @@ def run_op(handles, op):
     raise ValueError(op)
 
 
+def subclasses(c):
+    out = []
+    for s in c.__subclasses__():
+        out.append(s)
+        out += subclasses(s)
+    return out
+
+
 def run_case(case):
-    expr = pc.from_json(case["expr"])
+    expr = pc.from_json(case["expr"]) if "source" not in case else None
     obs, status = [], None
     signal.setitimer(signal.ITIMER_REAL, OP_TIMEOUT * 2)
     try:
@@ -101,7 +109,17 @@ def run_case(case):
         status = "timeout"
     finally:
         signal.setitimer(signal.ITIMER_REAL, 0)
-    return {"obs": obs, "status": status}
+    out = {"obs": obs, "status": status}
+    if case.get("introspect") and "p" in holder:
+        # the operand's class, and its instance attributes that shadow an attribute of class Pattern (static methods
+        # `pattern`, `value`, ...): what a dunder reaches through `self.<name>` is then the instance's value
+        p = holder["p"]
+        out["cls"] = type(p).__name__
+        try:
+            out["shadow"] = sorted(k for k in vars(p) if hasattr(iso.Pattern, k))
+        except TypeError:
+            out["shadow"] = []
+    return out
 
 
 def main():
@@ -114,7 +132,10 @@ def main():
         for d, s in zip((Scale.dict, Chord.dict, Globals.dict), saved):
             if d != s:
                 d.clear(); d.update(s)
-    json.dump({"cases": out}, sys.stdout)
+    res = {"cases": out}
+    if req.get("list_classes"):
+        res["classes"] = sorted({c.__name__ for c in subclasses(iso.Pattern)})
+    json.dump(res, sys.stdout)
 
 
 main()
